@@ -21,7 +21,7 @@ import re
 from gen import vengen
 from vlib import core, passlib
 
-COQ_TARGETS = ["Props/C17.vo"]
+COQ_TARGETS = ["Props/C17.vo", "Model/VeneersSpec.vo"]
 PROPS = "Props/C17.v"
 TRUSTED = [
     "hand-written Gallina models of internal/veneers/builder/rules.go, selectors.go, option/actions.go, rules.go, selectors.go, veneers/types.go, rewrite/rewrite.go, yaml/builder.go, option.go, veneers.go and ast/builder.go MakePath/DeepCopy (coq/Model/Veneers.v); VeneerTrail and the Debug rules built on it are not modelled",
